@@ -17,7 +17,7 @@ RULE_TEXT = ("C08-C: the payload class of each quoted-string recogniser denotes 
              "application of one, the error kind Incomplete is either propagated or excluded by an explicit kind test on "
              "that path - never dropped by optional/or_else/unwrap_or/map_err; optional() wraps no such parser. "
              "C08-V: the Value delivered is exactly the taken span. C08-R: run answers Incomplete silently with the "
-             "input unchanged - on every parse-error path that has not excluded Incomplete - and starts every call at the root; run:resume-keeps-path: the header path of the units already executed survives the resumption of a message (open finding F9). run:resume-keeps-state: run carries no other local from unit to unit (it would be lost at a resumption as well)."
+             "input unchanged - on every parse-error path that has not excluded Incomplete - and starts every call at the root; run:resume-keeps-path: the header path of the units already executed survives the resumption of a message (open finding F9). run:resume-keeps-state: run carries no other local from unit to unit (it would be lost at a resumption as well). C08-RAW: run never examines the raw bytes of its input or of a parse remainder outside parse, except to find the terminator behind a failed parse (rule C11-R)."
              " C08-PR: the contracts of the parser combinators the skeleton builds on are read from their bodies - satisfy (accept first byte iff pred / soft error / Incomplete on empty), take_while (never fails; longest prefix, position() form or counting-loop form), optional (never fails; Some(value) or input untouched), tag(b) = satisfy(== b).")
 
 
@@ -39,6 +39,10 @@ def run(ck):
     # the bytes of an unfinished message are kept and offered again from their start: process's buffer discipline
     import c07
     c07.rule_K(ck, lib, "C08-P")
+    # run never searches the raw bytes for a newline or separator while a unit has parsed (behind an execution error, say):
+    # only the parser knows whether a newline is a terminator or payload (rule C11-R)
+    import c11
+    c11.rule_R(ck, lib, "C08-RAW")
 
 
 def value_ctor(sk, x):
